@@ -11,6 +11,7 @@ import TxVerif.Props.C18
 import TxVerif.Model.CodecDriver
 import TxVerif.Model.Crash
 import TxVerif.Model.PQDriver
+import TxVerif.Model.PQCounters
 open TxVerif
 
 def choiceStr : Choice → String
@@ -145,10 +146,17 @@ def crashProgram (lines : List String) : Nat × Option String :=
   let reachOf : Nat → List (Nat × Nat) := fun st => ((states.find? (·.1 == st)).map (·.2)).getD []
   let initPages : List (Nat × Nat) := (lines.filterMap fun l =>
     match l.splitOn " " with | ["init", r] => some (parseReach r) | _ => none).flatten
+  -- `start <slot> <txid>`: the header that is committed when the trace starts (its state id is its txid);
+  -- without such a line: a freshly created file (slot 0, txid 1, state 0)
+  let start : Option (Nat × Nat) := (lines.filterMap fun l =>
+    match l.splitOn " " with
+    | ["start", s, t] => match s.toNat?, t.toNat? with | some s, some t => some (s, t) | _, _ => none
+    | _ => none).head?
+  let (s0, t0, st0) := match start with | some (s, t) => (s, t, t) | none => (0, 1, 0)
   let c0 : Cfg := {
     durable := { pages := fun p => (initPages.find? (·.1 == p)).map (·.2),
-                 slots := fun k => if k = 0 then some (1, 0) else if k = 1 then some (0, 0) else none },
-    pending := [], aSlot := 0, aTx := 1, aSt := 0, inflight := none }
+                 slots := fun k => if k = s0 then some (t0, st0) else if k = 1 - s0 then some (t0 - 1, st0) else none },
+    pending := [], aSlot := s0, aTx := t0, aSt := st0, inflight := none }
   let ops : List (String × TOp) := lines.filterMap fun l =>
     match l.splitOn " " with
     | ["w", p, h] => match p.toNat?, h.toNat? with | some p, some h => some (l, TOp.write p h) | _, _ => none
@@ -178,6 +186,33 @@ partial def crashLoop (h : IO.FS.Stream) (acc : List String) (prog : String) (ch
       crashLoop h [] "" (checked + n) (mism + 1) (progs + 1)
   else crashLoop h (l :: acc) prog checked mism progs
 
+/-- pqhdr mode: every queue header observed on the implementation must satisfy the header
+    invariant for the specification counters, and Pending/Active must be what the model computes -/
+partial def pqhdrLoop (h : IO.FS.Stream) (line checked mism : Nat) : IO (Nat × Nat) := do
+  let ln ← h.getLine
+  if ln.isEmpty then return (checked, mism)
+  let t := ln.trimAscii.toString
+  match t.splitOn " " with
+  | "hdr" :: rest =>
+    let pairOf (k : String) : Nat × Bool :=
+      match ((rest.find? (·.startsWith (k ++ "="))).map (fun x => (x.drop (k.length + 1)).toString)).getD "0:0" |>.splitOn ":" with
+      | [a, b] => (a.toNat?.getD 0, b == "1")
+      | _ => (0, false)
+    let natOf (k : String) : Nat :=
+      (((rest.find? (·.startsWith (k ++ "="))).map (fun x => (x.drop (k.length + 1)).toString)).bind String.toNat?).getD 0
+    let (hi, hs) := pairOf "h"
+    let (ri, rs) := pairOf "r"
+    let (ti, ts) := pairOf "t"
+    let q : QHdr := { headId := hi, readId := ri, tailId := ti, headSet := hs, readSet := rs, tailSet := ts }
+    let F := natOf "f"
+    let A := natOf "a"
+    let ok := decide (HdrInv q F A) && q.pending == natOf "p" && q.active == natOf "act"
+    if ok then pqhdrLoop h (line + 1) (checked + 1) mism
+    else do
+      IO.println s!"MISMATCH line={line + 1} {t}: header invariant {decide (HdrInv q F A)}, model pending {q.pending} active {q.active}"
+      pqhdrLoop h (line + 1) (checked + 1) (mism + 1)
+  | _ => pqhdrLoop h (line + 1) checked mism
+
 /-- engine mode: programs are delimited by `program …` / `end` lines -/
 partial def engLoop (h : IO.FS.Stream) (st : EngSt) (prog : String) (checked mism progs : Nat) : IO (Nat × Nat × Nat) := do
   let line ← h.getLine
@@ -202,6 +237,10 @@ def main (args : List String) : IO UInt32 := do
     let st ← loop stdin {}
     IO.println s!"DONE checked={st.checked} mismatches={st.mismatches} bad={st.bad}"
     return (if st.mismatches == 0 && st.bad == 0 then 0 else 1)
+  | "pqhdr" =>
+    let (checked, mism) ← pqhdrLoop stdin 0 0 0
+    IO.println s!"DONE checked={checked} mismatches={mism} bad=0"
+    return (if mism == 0 then 0 else 1)
   | "crash" =>
     let (checked, mism, progs) ← crashLoop stdin [] "" 0 0 0
     IO.println s!"DONE checked={checked} mismatches={mism} bad=0 programs={progs}"
